@@ -20,3 +20,8 @@ def F11_late_arrival(v):
     """a further satisfied inbound transition arrives at a join (join: N with N smaller than the number of
     inbound tasks, or a join in a cycle) whose execution for the already satisfied barrier is still in flight"""
     return bool(v and v.get("late_arrival_at_running_join"))
+
+
+def F9_inherited_override(v):
+    """the recorded history: publish on `do: a, b`, a re-publishes, b (which only inherited) arrives last"""
+    return bool(v and v.get("history") == "F9")
